@@ -117,4 +117,19 @@ EscEl == << <<BSL, BSL>>, <<BSL, 110>>, <<BSL, 116>>, <<BSL, DQ>>, S2C("n"), S2C
 EscRuns2 == {EscEl[a] \o EscEl[b] : a \in 1..Len(EscEl), b \in 1..Len(EscEl)}
 EscRuns3 == {EscEl[a] \o EscEl[b] \o EscEl[c] : a \in 1..Len(EscEl), b \in 1..Len(EscEl), c \in 1..Len(EscEl)}
 EscRuns == EscRuns2 \cup EscRuns3
+
+\* ---- the edges of a multi-line double-quoted string (shared by the generators of C08 and C10) ----
+\* Every line is indentation + content + trailing blanks.  Blanks before a line break go (first and inner lines), blanks
+\* before the closing quote stay (last line); indentation goes up to the quote column on every line but the first.
+EdgeTrails == {<< >>, <<SP>>, <<SP, SP, TAB>>}                      \* none, one, several
+EdgeConts == {<< >>, S2C("x"), S2C("login:")}                       \* empty content: a line of blanks only
+EdgeLineSet(I) == {ind \o c \o t : ind \in I, c \in EdgeConts, t \in EdgeTrails}
+EdgeFirst == {ind \o c \o t : ind \in {<< >>, <<SP>>}, c \in {<< >>, S2C("x")}, t \in EdgeTrails}
+Edge2(I, eol) == {f \o eol \o l : f \in EdgeFirst, l \in EdgeLineSet(I)}
+Edge3(I, J) == {f \o <<LF>> \o m \o <<LF>> \o l : f \in {<< >>, S2C("x "), S2C("x")}, m \in EdgeLineSet(J), l \in EdgeLineSet(I)}
+\* a source cut after its last line break
+RECURSIVE LastLfIn(_, _)
+LastLfIn(s, i) == IF i < 1 THEN 0 ELSE IF s[i] = LF THEN i ELSE LastLfIn(s, i - 1)
+HeadOf(s) == SubSeq(s, 1, LastLfIn(s, Len(s)))
+TailOf(s) == SubSeq(s, LastLfIn(s, Len(s)) + 1, Len(s))
 =============================================================================
